@@ -6,7 +6,9 @@
 //	                                                        -crashat P exits instead before the P-th mutating
 //	                                                        file operation (FaultFS), 0 = off
 //	raftwal recover -dir D -sched S.json -out R.json        reopen DB + storages and dump (hard state, snapshot,
-//	                                                        first/last index, entries, raft entries on disk)
+//	                                                        first/last index, entries, raft entries on disk);
+//	                                                        then watchdog / rotate+flush / watchdog with the
+//	                                                        storages open, close, reopen and dump again ("second")
 package main
 
 import (
@@ -212,21 +214,10 @@ func work(dir, sched, trace string, upto int) {
 	os.Exit(77)
 }
 
-func recoverCmd(dir, sched, outp string) {
-	s := load(sched)
+// dumpAll reads the LSM keys, the raft entries physically present in the surviving WAL segments
+// (independent of OpenWALStorage) and every group's reopened storage.
+func dumpAll(db *NoKV.DB, s *Sched) (map[string]any, map[uint64]*engine.WALStorage) {
 	res := map[string]any{"open": true}
-	defer func() {
-		b, _ := json.Marshal(res)
-		_ = os.WriteFile(outp, b, 0o644)
-	}()
-	r, _, err := openAll(dir, s, nil)
-	if err != nil {
-		res["open"] = false
-		res["err"] = err.Error()
-		return
-	}
-	db := r.DB
-	r.WaitFlushIdle() // recovered memtables are flushed (and their segments possibly removed) before raft storages open
 	lsm := map[string]string{}
 	for _, k := range s.Keys {
 		e, err := db.Get([]byte(k))
@@ -240,24 +231,10 @@ func recoverCmd(dir, sched, outp string) {
 		}
 	}
 	res["lsm"] = lsm
-	// raft entries physically present in the surviving WAL segments (independent of OpenWALStorage)
-	disk := map[uint64][]Ent{}
-	_ = db.WAL().Replay(func(info wal.EntryInfo, payload []byte) error {
-		if info.Type != wal.RecordTypeRaftEntry {
-			return nil
-		}
-		gid, ents, err := engine.VerifDecodeRaftEntries(payload)
-		if err != nil {
-			return nil
-		}
-		for _, e := range ents {
-			disk[gid] = append(disk[gid], Ent{I: e.Index, T: e.Term})
-		}
-		return nil
-	})
+	stores := map[uint64]*engine.WALStorage{}
 	var groups []map[string]any
 	for _, g := range s.Groups {
-		gr := map[string]any{"g": g, "open": true, "term": 0, "vote": 0, "commit": 0, "first": 0, "last": 0, "si": 0, "st": 0, "ents": []Ent{}, "disk": append([]Ent{}, disk[g]...)}
+		gr := map[string]any{"g": g, "open": true, "term": 0, "vote": 0, "commit": 0, "first": 0, "last": 0, "si": 0, "st": 0, "ents": []Ent{}, "disk": []Ent{}}
 		var ws *engine.WALStorage
 		var err error
 		func() {
@@ -274,6 +251,7 @@ func recoverCmd(dir, sched, outp string) {
 			groups = append(groups, gr)
 			continue
 		}
+		stores[g] = ws
 		hs, _, _ := ws.InitialState()
 		first, _ := ws.FirstIndex()
 		last, _ := ws.LastIndex()
@@ -295,6 +273,28 @@ func recoverCmd(dir, sched, outp string) {
 		groups = append(groups, gr)
 	}
 	res["raft"] = groups
+	return res, stores
+}
+
+// scanDisk fills in, per group, the raft entries physically present in the WAL right now, and the segment list
+func scanDisk(db *NoKV.DB, res map[string]any) {
+	disk := map[uint64][]Ent{}
+	_ = db.WAL().Replay(func(info wal.EntryInfo, payload []byte) error {
+		if info.Type != wal.RecordTypeRaftEntry {
+			return nil
+		}
+		gid, ents, err := engine.VerifDecodeRaftEntries(payload)
+		if err != nil {
+			return nil
+		}
+		for _, e := range ents {
+			disk[gid] = append(disk[gid], Ent{I: e.Index, T: e.Term})
+		}
+		return nil
+	})
+	for _, gr := range res["raft"].([]map[string]any) {
+		gr["disk"] = append([]Ent{}, disk[gr["g"].(uint64)]...)
+	}
 	var segs []string
 	if files, err := db.WAL().ListSegments(); err == nil {
 		for _, f := range files {
@@ -302,7 +302,69 @@ func recoverCmd(dir, sched, outp string) {
 		}
 	}
 	res["wal_after"] = segs
-	_ = db.Close()
+}
+
+func recoverCmd(dir, sched, outp string, maint bool) {
+	s := load(sched)
+	res := map[string]any{"open": true}
+	defer func() {
+		b, _ := json.Marshal(res)
+		_ = os.WriteFile(outp, b, 0o644)
+	}()
+	r, _, err := openAll(dir, s, nil)
+	if err != nil {
+		res["open"] = false
+		res["err"] = err.Error()
+		return
+	}
+	db := r.DB
+	r.WaitFlushIdle() // recovered memtables are flushed (and their segments possibly removed) before raft storages open
+	first, _ := dumpAll(db, s)
+	scanDisk(db, first)
+	for k, v := range first {
+		res[k] = v
+	}
+	// Maintenance of the reopened store, with the raft storages open (they may have rewritten their manifest
+	// pointers): watchdog pass, a rotation + flush, another watchdog pass. Then a clean close, a second reopen
+	// and the same dump: what was persisted before the crash must still be there.
+	if !maint {
+		_ = db.Close()
+		return
+	}
+	second := map[string]any{"open": true}
+	res["second"] = second
+	func() {
+		defer func() {
+			if p := recover(); p != nil {
+				second["open"] = false
+				second["err"] = fmt.Sprint(p)
+			}
+		}()
+		wd := db.VerifWALWatchdog()
+		if wd != nil {
+			wd.RunOnce()
+		}
+		db.VerifLSM().Rotate()
+		r.WaitFlushIdle()
+		if wd != nil {
+			wd.RunOnce()
+			second["wd_removed"] = wd.Snapshot().SegmentsRemoved
+		}
+		_ = db.Close()
+		r2, _, err := openAll(dir, s, nil)
+		if err != nil {
+			second["open"] = false
+			second["err"] = err.Error()
+			return
+		}
+		r2.WaitFlushIdle()
+		d2, _ := dumpAll(r2.DB, s)
+		scanDisk(r2.DB, d2)
+		for k, v := range d2 {
+			second[k] = v
+		}
+		_ = r2.DB.Close()
+	}()
 }
 
 func main() {
@@ -317,12 +379,13 @@ func main() {
 	outp := fset.String("out", "", "")
 	upto := fset.Int("upto", 1<<30, "")
 	at := fset.Int64("crashat", 0, "")
+	maint := fset.Bool("maint", false, "recover: maintain the reopened store with the storages open, reopen and dump again")
 	_ = fset.Parse(os.Args[2:])
 	crashAt = *at
 	switch os.Args[1] {
 	case "work":
 		work(*dir, *sched, *trace, *upto)
 	case "recover":
-		recoverCmd(*dir, *sched, *outp)
+		recoverCmd(*dir, *sched, *outp, *maint)
 	}
 }
